@@ -241,6 +241,17 @@ func (matrix *DenseFloat64Matrix) Tip() {
   matrix.rowMax, matrix.colMax = matrix.colMax, matrix.rowMax
 }
 func (matrix *DenseFloat64Matrix) AsVector() Vector {
+  if matrix.rows*matrix.cols != len(matrix.values) {
+    // the matrix is a slice of a larger matrix, copy its elements
+    n, m := matrix.Dims()
+    v := make([]float64, n*m)
+    for i := 0; i < n; i++ {
+      for j := 0; j < m; j++ {
+        v[i*m + j] = matrix.values[matrix.index(i, j)]
+      }
+    }
+    return DenseFloat64Vector(v)
+  }
   return DenseFloat64Vector(matrix.values)
 }
 func (matrix *DenseFloat64Matrix) storageLocation() uintptr {
@@ -334,6 +345,17 @@ func (matrix *DenseFloat64Matrix) IsSymmetric(epsilon float64) bool {
   return true
 }
 func (matrix *DenseFloat64Matrix) AsConstVector() ConstVector {
+  if matrix.rows*matrix.cols != len(matrix.values) {
+    // the matrix is a slice of a larger matrix, copy its elements
+    n, m := matrix.Dims()
+    v := make([]float64, n*m)
+    for i := 0; i < n; i++ {
+      for j := 0; j < m; j++ {
+        v[i*m + j] = matrix.values[matrix.index(i, j)]
+      }
+    }
+    return DenseFloat64Vector(v)
+  }
   return DenseFloat64Vector(matrix.values)
 }
 /* implement ScalarContainer
